@@ -1190,7 +1190,27 @@ func (s *netSim) finalNet() {
 			r.out.Probes["heal_not_recovered"]++
 			r.log.Addf("no recovery: heights at heal %v, now %v", s.healHeights, hs)
 			if healAssert {
-				r.violate(sim.Violatef("liveness", "liveness/after-heal", "faults stopped at %d ms (validator heights %v); %d ms of fault-free, timely delivery later the heights are %v: not every validator gained two blocks", s.healAt/time.Millisecond, s.healHeights, s.np.HealMS, hs))
+				// the recorded dBFT 2.0 deadlock: some validators have sent their Commit in a view (commits are never
+				// revoked) while the others - having missed the preparations - moved to a higher view before they learnt
+				// of those commits; neither group reaches M, further view changes are refused (nc+nf > f) for good
+				locked := 0
+				for i := 0; i < s.np.Validators; i++ {
+					lc := s.nodes[i].n.logs
+					lc.mu.Lock()
+					if lc.skipN > 0 && lc.skipNC >= 1 {
+						locked++
+					}
+					lc.mu.Unlock()
+				}
+				sig := "liveness/after-heal"
+				same := true
+				for i := range hs {
+					same = same && hs[i] == s.healHeights[i] && hs[i] == hs[0]
+				}
+				if locked >= 1 && same {
+					sig += "+commits-locked-in-a-lower-view"
+				}
+				r.violate(sim.Violatef("liveness", sig, "faults stopped at %d ms (validator heights %v); %d ms of fault-free, timely delivery later the heights are %v: not every validator gained two blocks (%d validators keep refusing to change view because they know of committed ones)", s.healAt/time.Millisecond, s.healHeights, s.np.HealMS, hs, locked))
 				return
 			}
 		case s.healedIn <= 5*time.Second:
